@@ -393,9 +393,13 @@ def handle (st : DState) (line : String) : DState × String :=
   | "REG" =>
     match text 2, (fld 3).toInt?, (parseSexp (fld 6)).bind sexpScript with
     | some name, some prec, some sc =>
-      let w : W := { regs := st.regs, ctx := [], regPoisoned := st.regPoisoned, user := st.user }
+      -- (registries and script table are taken out of the state first, so that they are extended in place)
+      let regs0 := st.regs
+      let user0 := st.user
+      let st := { st with regs := Regs.empty, user := {} }
+      let w : W := { regs := regs0, ctx := [], regPoisoned := st.regPoisoned, user := user0 }
       let (_, w') := doReg (fld 1) name prec (fld 4 == "setter") (fld 5 == "right") sc w
-      ({ st with regs := w'.regs, user := w'.user }, "OK")
+      ({ st with regs := w'.regs.compact, user := w'.user }, "OK")
     | _, _, _ => (st, "BADREQ")
   | "CTX" =>
     match parseSexp (fld 2) with
